@@ -18,3 +18,11 @@ reg("C02", "property-based testing by construction a=q*b+r, differential vs num-
 reg("C03", "property-based testing against an exact-arithmetic rounding-contract oracle (proptest, 60 mode×base instantiations)",
     "Context add/sub/mul/div/sqr/cubic/inv/sqrt and the FBig operators in 6 modes × 5 bases on operands aimed at the alignment branches (exponent gaps relative to p, cancellation, carries, exact quotients, tie radicands); the six clauses of the documented contract (Exact⇔equal, <=p+1 digits, representable⇒exact, error <1 ulp / <=1/2 ulp, side, AddOne/SubOne direction) are evaluated with integer arithmetic only; sqrt is decided by comparing squares.",
     TRUST + " The contract checked is the documented faithful-rounding contract, not correct rounding to p digits.")
+
+reg("C09", "property-based differential testing vs num-bigint BigInt cross-checked by a word-level two's-complement model (proptest)",
+    "Generated structured integers of every sign (magnitudes of exactly 0-4 words and larger, all-ones, 2^k, 2^(64k)±1, zero low words, runs of trailing ones across word boundaries; pairs incl. b=!a, b=-a, one bit flipped) through & | ^ ! in every ownership/assign/mixed UBig-IBig/primitive form, << >> (+assign) and bit, set_bit, clear_bit, split_bits, clear_high_bits, bit_len, trailing_zeros/ones, count_ones/zeros, is/next_power_of_two, ones(n), with shift counts and positions from 0 over every word boundary to far beyond the operand; each result compared word-for-word with num-bigint, which must itself agree with an independent two's-complement model; >> additionally against floor division.",
+    TRUST)
+
+reg("C11", "property-based testing against a rigorous ball-arithmetic enclosure with a Ziv precision ladder (proptest, 30 mode×base instantiations)",
+    "exp, exp_m1, ln, ln_1p, powi, powf through Context and FBig methods for arguments placed by magnitude class (tiny, next to 0/1/-1, huge, exact points); the true value is enclosed by outward-rounded midpoint-radius arithmetic written for this harness (Taylor tails bounded explicitly, ln certified through exp), precision doubled up to 4 times; a result is a violation only when the whole enclosure is >= 1 ulp away, a pass only when the whole enclosure is < 1 ulp away, otherwise inconclusive; rational truths are compared exactly; Exact on an irrational truth is a violation. The enclosure kernel is self-checked against 80-digit constants and exp(ln x) at start-up.",
+    TRUST + " Soundness of the oracle rests on dv/src/ball.rs; irrationality facts (Lindemann-Weierstrass, non-perfect-power roots) are assumed.")
